@@ -608,6 +608,12 @@ def listmap(fn_node, name):
 def _fold_appends(stmts, name):
   """the single value appended to `name` on every path through stmts, as an
   expression (if/else -> IfExp), or None"""
+  # statements that neither mention the list nor leave the block do not take
+  # part in building it (another accumulator filled in the same pass)
+  stmts = [x for x in stmts if any(
+      isinstance(n, ast.Name) and n.id == name for n in ast.walk(x)) or any(
+          isinstance(n, (ast.Break, ast.Continue, ast.Return, ast.Raise))
+          for n in ast.walk(x))]
   if len(stmts) != 1:
     return None
   s = stmts[0]
